@@ -1055,11 +1055,13 @@ fn gen_node_exec(rng: &mut Rng, calls: usize, k: u64) -> Vec<Value> {
     };
     let wrappers = ["plain", "ref", "ref_dyn", "box", "boxed", "boxed_send", "dyn_node", "dyn_fn", "dyn_fnmut", "fn"];
     let ok: Vec<&str> = wrappers.iter().cloned().filter(|w| wrapper_ok(kind, w)).collect();
-    let nf = rng.range(0, 4) as usize;
+    // every sixth execution has a wide fan-in (17..24 inputs, over parallel edges): thresholds on the input count
+    let wide = k % 6 == 5;
+    let nf = if wide { rng.range(1, 6) as usize } else { rng.range(0, 4) as usize };
     let feeds: Vec<usize> = (0..nf).map(|_| rng.range(0, 4) as usize).collect();
     let mut edges: Vec<usize> = Vec::new();
     if nf > 0 {
-        for _ in 0..rng.range(0, 5) {
+        for _ in 0..(if wide { rng.range(17, 24) } else { rng.range(0, 5) }) {
             edges.push(rng.below(nf as u64) as usize); // parallel edges from one feeder allowed
         }
     }
